@@ -55,6 +55,7 @@ type vfStep struct {
 	Key    int    `json:"key"`
 	D      int    `json:"d"`
 	S      int    `json:"s"`
+	F      int    `json:"f"` // form of the client address: 1 = 16-byte TCPAddr/UDPAddr, 2 = 4-byte, 3 = string-backed
 	Locmap []int  `json:"locmap"`
 }
 
@@ -357,14 +358,46 @@ func vfUDPAddr(ip int) *net.UDPAddr {
 }
 func vfKey(k int) string { return fmt.Sprintf("k%d", k) }
 
+// string-backed address (what a wrapper around a connection may return): only String() tells the client
+type vfStrAddr struct{ network, s string }
+
+func (a vfStrAddr) Network() string { return a.network }
+func (a vfStrAddr) String() string  { return a.s }
+
+// vfAddrF returns the address of client `ip` in one of the representations a real server sees for ONE client:
+// 1 = *net.TCPAddr / *net.UDPAddr with the 16-byte IP (IPv4 clients: the IPv4-mapped form a dual-stack [::]:port
+// socket reports), 2 = the same with the 4-byte IP (what an IPv4 socket reports), 3 = string-backed net.Addr.
+func vfAddrF(ip int, f int, udp bool) net.Addr {
+	p := net.ParseIP(vfClientIPs[ip-1])
+	port := vfClientPorts[ip-1]
+	switch f {
+	case 2:
+		if v4 := p.To4(); v4 != nil {
+			p = v4
+		}
+	case 3:
+		nw := "tcp"
+		if udp {
+			nw = "udp"
+		}
+		return vfStrAddr{nw, net.JoinHostPort(p.String(), fmt.Sprint(port))}
+	default:
+		p = p.To16()
+	}
+	if udp {
+		return &net.UDPAddr{IP: p, Port: port}
+	}
+	return &net.TCPAddr{IP: p, Port: port}
+}
+
 func (r *vfRun) step(st vfStep) {
 	r.nstep++
 	n := int64(r.nstep%7 + 1)
 	switch st.A {
 	case "Open":
 		l := vfListeners[st.C%len(vfListeners)]
-		r.tcp[st.C] = r.m.AddOpenTCPConnection(&vfTCPConn{local: l, remote: vfTCPAddr(st.IP)})
-		r.out.emit(map[string]any{"ev": "Open", "c": st.C, "ip": st.IP})
+		r.tcp[st.C] = r.m.AddOpenTCPConnection(&vfTCPConn{local: l, remote: vfAddrF(st.IP, st.F, false)})
+		r.out.emit(map[string]any{"ev": "Open", "c": st.C, "ip": st.IP, "f": st.F})
 	case "Auth":
 		r.m.AddCipherSearch("tcp", true, time.Duration(n)*time.Millisecond)
 		r.tcp[st.C].AddAuthenticated(vfKey(st.Key))
@@ -383,8 +416,8 @@ func (r *vfRun) step(st vfStep) {
 		r.out.emit(map[string]any{"ev": "Probe", "c": st.C})
 	case "NatAdd":
 		r.m.AddCipherSearch("udp", true, time.Duration(n)*time.Millisecond)
-		r.udp[st.C] = r.m.AddUDPNatEntry(vfUDPAddr(st.IP), vfKey(st.Key))
-		r.out.emit(map[string]any{"ev": "NatAdd", "c": st.C, "ip": st.IP, "key": st.Key})
+		r.udp[st.C] = r.m.AddUDPNatEntry(vfAddrF(st.IP, st.F, true), vfKey(st.Key))
+		r.out.emit(map[string]any{"ev": "NatAdd", "c": st.C, "ip": st.IP, "key": st.Key, "f": st.F})
 	case "Packet":
 		if r.nstep%2 == 0 {
 			r.udp[st.C].AddPacketFromClient("OK", 30+n, 20+n)
